@@ -97,9 +97,13 @@ def linear_spline(
         bin_width = 1.0 / num_bins
         logabsdet = torch.log(input_pdfs) - np.log(bin_width)
 
+    # The normalisation to the unit square and back scales the derivative by the aspect ratio of the box.
+    log_box_scale = np.log(top - bottom) - np.log(right - left)
     if inverse:
         outputs = outputs * (right - left) + left
+        logabsdet = logabsdet - log_box_scale
     else:
         outputs = outputs * (top - bottom) + bottom
+        logabsdet = logabsdet + log_box_scale
 
     return outputs, logabsdet
